@@ -10,27 +10,30 @@
   * `Acyclic d`                 no definition instantiates itself transitively;
   * `(uniquify fuel d).finished` the walk ran to completion with the given fuel (reported by the driver
                                 for every input; the harness treats `false` as a broken obligation);
-  * `(uniquify fuel d).ok`      the bounded search for a free name succeeded (reported by the driver;
-                                the search tries `ndefs + 1` counter values and at most `ndefs` names
-                                are taken, so it cannot fail — this pigeonhole fact is NOT proved
-                                here, it is checked on every run instead).
+  (`(uniquify fuel d).ok`, the bounded search for a free name succeeded, is a theorem: `uniquify_ok`.)
 -/
 import Spydr.Xform.LemmasUniqNames
+import Spydr.Xform.LemmasUniqOk
 
 namespace Spydr.Xform
 
+/-- The bounded search for a free name never fails: the `ndefs + 1` candidates `name_sdn_unique_k` are
+    pairwise different and the library holds at most `ndefs` names. -/
+theorem uniquify_never_stuck (fuel : Nat) (d : Design) : (uniquify fuel d).ok = true := uniquify_ok fuel d
+
 /-- The netlist stays well-formed. -/
-theorem uniquify_wf (fuel : Nat) (d : Design) (hwf : WF d) (hok : (uniquify fuel d).ok = true) :
+theorem uniquify_wf (fuel : Nat) (d : Design) (hwf : WF d) :
     WF (uniquify fuel d).design :=
-  (uLoop_induct WFQ (fun _ _ _ _ _ _ inv h => inv.step h) fuel (uInit d) (WFQ.init hwf) hok).1
+  (uLoop_induct WFQ (fun _ _ _ _ _ _ inv h => inv.step h) fuel (uInit d) (WFQ.init hwf) (uniquify_ok fuel d)).1
 
 /-- After uniquify every non-leaf instance reachable from the top instance is the only instance of
     its definition (`Unique`: the reference set has exactly one member, counting every instance there
     is — also instances in definitions outside the top hierarchy and instances outside every
     definition). -/
 theorem uniquify_unique (fuel : Nat) (d : Design) (hwf : WF d) (hac : Acyclic d)
-    (hok : (uniquify fuel d).ok = true) (hfin : (uniquify fuel d).finished = true) :
+    (hfin : (uniquify fuel d).finished = true) :
     Unique (uniquify fuel d).design := by
+  have hok := uniquify_ok fuel d
   obtain ⟨rank, hr⟩ := hac
   obtain ⟨Done, rank', inv⟩ := uLoop_inv fuel (uInit d) _ rank (UInv.init hwf hr) hok
   have hq : (uLoop fuel (uInit d)).queue = [] := by simpa [uniquify] using hfin
@@ -41,8 +44,9 @@ theorem uniquify_unique (fuel : Nat) (d : Design) (hwf : WF d) (hac : Acyclic d)
     at every path) and the connectivity between all hierarchical wires, hierarchical pins and
     top-level port bits — in particular the grouping of leaf pins and top-level port bits into nets —
     are exactly what they were.  (Holds for every prefix of the walk, hence no `finished`.) -/
-theorem uniquify_preserves_elab (fuel : Nat) (d : Design) (hwf : WF d) (hok : (uniquify fuel d).ok = true) :
+theorem uniquify_preserves_elab (fuel : Nat) (d : Design) (hwf : WF d) :
     SameElab d (uniquify fuel d).design := by
+  have hok := uniquify_ok fuel d
   have := uLoop_induct (fun d' queue => WFQ d' queue ∧ SameElab d d')
     (by
       intro d1 q k rest d2 push ⟨inv, hs⟩ h
@@ -58,11 +62,11 @@ theorem uniquify_preserves_elab (fuel : Nat) (d : Design) (hwf : WF d) (hok : (u
 /-- Restriction of `uniquify_preserves_elab` to the sentence of the property: two endpoints (leaf pin
     bits, top-level port bits) are connected after uniquify iff they were before; what is an
     endpoint does not change either. -/
-theorem uniquify_preserves_nets (fuel : Nat) (d : Design) (hwf : WF d) (hok : (uniquify fuel d).ok = true)
+theorem uniquify_preserves_nets (fuel : Nat) (d : Design) (hwf : WF d)
     (a b : HNode) :
     (IsEndpoint d a ↔ IsEndpoint (uniquify fuel d).design a) ∧
     (HConn d a b ↔ HConn (uniquify fuel d).design a b) := by
-  have h := uniquify_preserves_elab fuel d hwf hok
+  have h := uniquify_preserves_elab fuel d hwf
   refine ⟨?_, h.2 a b⟩
   cases a with
   | wire => exact Iff.rfl
@@ -101,8 +105,9 @@ theorem uniquify_preserves_nets (fuel : Nat) (d : Design) (hwf : WF d) (hok : (u
       copy (same library, ports, cables) of an earlier definition `x`, unnamed if `x` is unnamed and
       otherwise named `name x ++ "_sdn_unique_" ++ k` with `k` between the counter before and after
       the call; the relative order of the old definitions in every library is unchanged. -/
-theorem uniquify_fresh_names (fuel : Nat) (d : Design) (hwf : WF d) (hok : (uniquify fuel d).ok = true) :
+theorem uniquify_fresh_names (fuel : Nat) (d : Design) (hwf : WF d) :
     (DefNamesUnique d → DefNamesUnique (uniquify fuel d).design) ∧ Grows d (uniquify fuel d).design := by
+  have hok := uniquify_ok fuel d
   have := uLoop_induct (fun d' queue => WFQ d' queue ∧ (DefNamesUnique d → DefNamesUnique d') ∧ Grows d d')
     (by
       intro d1 q k rest d2 push ⟨inv, hnm, hg⟩ h
@@ -128,10 +133,10 @@ theorem uniquify_step_position {d d' : Design} {q k : Nat} {c : Inst} (hwf : WF 
 
 /-- Running uniquify again changes nothing (not even the name counter), whatever the fuel. -/
 theorem uniquify_idem (fuel : Nat) (d : Design) (hwf : WF d) (hac : Acyclic d)
-    (hok : (uniquify fuel d).ok = true) (hfin : (uniquify fuel d).finished = true) (fuel' : Nat) :
+    (hfin : (uniquify fuel d).finished = true) (fuel' : Nat) :
     (uniquify fuel' (uniquify fuel d).design).design = (uniquify fuel d).design ∧
     (uniquify fuel' (uniquify fuel d).design).ok = true := by
-  have hU := uniquify_unique fuel d hwf hac hok hfin
+  have hU := uniquify_unique fuel d hwf hac hfin
   have := uLoop_fix hU fuel' (uInit (uniquify fuel d).design) rfl (by
     intro a ha
     rw [(mem_childAddrs.mp ha).1]
